@@ -467,6 +467,31 @@ TRACED_FORMS = {
 }
 
 
+ORDER_FORMS = {
+    "algopy.reshape(x, s, 'F')": lambda v, s_: algopy.reshape(v, s_, 'F'), "algopy.reshape(x, s, order='F')": lambda v, s_: algopy.reshape(v, s_, order='F'),
+    "x.reshape(s, 'F')": lambda v, s_: v.reshape(s_, 'F'), "x.reshape(s, order='F')": lambda v, s_: v.reshape(s_, order='F'),
+    "UTPM.reshape(x, s, 'F')": lambda v, s_: UTPM.reshape(v, s_, 'F'),
+}
+
+
+def reshape_order_fails(case):
+    """a memory order other than 'C' passed to reshape in any calling form: either refused (NotImplementedError) or NumPy's
+    reshape with that order on every coefficient slice -- never silently the C-order result"""
+    x = np.array(case['x'])
+    shp = tuple(case['shape'])
+    try:
+        y = ORDER_FORMS[case['form']](UTPM(x.copy()), shp)
+    except NotImplementedError:
+        return None
+    except Exception as ex:
+        return 'reshape-order-exception: %s raised %s' % (case['form'], type(ex).__name__ + ':' + str(ex)[:60])
+    for d in range(x.shape[0]):
+        for p in range(x.shape[1]):
+            if y.data[d, p].shape != shp or not np.array_equal(y.data[d, p], np.reshape(x[d, p], shp, order='F')):
+                return "reshape-order: %s is neither refused nor numpy.reshape(..., order='F') on coefficient slice (%d,%d)" % (case['form'], d, p)
+    return None
+
+
 def traced_form_fails(case):
     """call forms of NumPy's signatures that the polynomial accepts are accepted on a traced polynomial, with the same value"""
     x = np.array(case['x'])
@@ -488,6 +513,8 @@ def traced_form_fails(case):
 def replay_case(ctx, case):
     if case.get('op') == 'traced-form':
         return traced_form_fails(case)
+    if case.get('op') == 'reshape-order':
+        return reshape_order_fails(case)
     if case.get('op') == 'utpclass-table':
         import utpcheck
         return utpcheck.replay(case)
@@ -504,6 +531,14 @@ def run(ctx):
     import utpcheck
     utpcheck.run(ctx, 'C13')
     rng = ctx.rng
+    for form_ in sorted(ORDER_FORMS):
+        for shp_ in ((3, 2), (6,), (1, 6)):
+            case = {'op': 'reshape-order', 'form': form_, 'shape': list(shp_), 'D': 2, 'P': 2, 'x': intdata(rng, (2, 2, 2, 3))}
+            ctx.evaluations += 1
+            ctx.count('reshape-order-argument')
+            f_ = reshape_order_fails(case)
+            if f_:
+                ctx.report(case, 'failure', f_)
     for form_ in sorted(TRACED_FORMS):
         x_ = rand_coeffs(rng, (2, 2, 2, 3), -2, 2)
         case = {'op': 'traced-form', 'form': form_, 'D': 2, 'P': 2, 'x': (x_ + 0.5j * x_[::-1]) if 'conj' in form_ else x_}
